@@ -35,7 +35,7 @@ PoolStd == { Rq("D1", "str", "A", <<>>), Rq("D1", "str", "B", <<>>), Rq("D1", "b
 PoolEnv == PoolStd \cup { Rq("D2", "str", "", [v |-> Bool(TRUE), extra |-> Int(1)]), Rq("D2", "str", "", [v |-> Null]),
                           Rq("D2", "str", "Nope", [v |-> Bool(TRUE)]), Rq("D5", "str", "", <<>>), Rq("D5", "bytes", "X", <<>>),
                           Rq("D3", "bytes", "A", <<>>), Rq("D4", "str", "A", [v |-> Bool(TRUE)]) }
-PoolSmall == { Rq("D1", "str", "A", <<>>), Rq("D1", "bytes", "B", <<>>), Rq("D2", "str", "", [v |-> Bool(TRUE)]),
+PoolSmall == { Rq("D1", "str", "A", <<>>), Rq("D1", "bytes", "B", <<>>), Rq("D2", "str", "", [v |-> Bool(TRUE)]), Rq("D2", "str", "", [v |-> Bool(FALSE)]),
                Rq("D2", "str", "", <<>>), Rq("D3", "str", "", <<>>), Rq("D4", "str", "", <<>>), Rq("D5", "str", "M", <<>>) }
 
 ASSUME PrintT(ToJson([kind |-> "schema", types |-> TypesExec, roots |-> RootsExec]))
